@@ -205,6 +205,11 @@ def verify_function(reg, c, budget_paths=MAX_PATHS):
             rep.aborted_paths += 1
         except RetryPath as r:
             worklist.append(r.prefix)
+            # alternatives discovered BEFORE the retry site are replayed from the prefix on the re-run,
+            # i.e. never re-discovered: keep them (those after the site will be found again)
+            for p in st.pending:
+                if len(p) < len(r.prefix):
+                    worklist.append(p)
             _cleanup(st)
             continue
         except Unsupported as u:
